@@ -99,6 +99,16 @@ const("vpl_empty_variant", "versatiles_pipeline/src/vpl/parser.rs", [
     (r"fn parse_quoted_string.{0,300}?delimited\(char\('\\\"'\), parse_string, cut", 0),
 ], "quoted string body: 0 = parse_string (an empty \"\" is rejected), 1 = opt(parse_string)")
 
+# ---- C10 / C11 vector tiles ----
+const("mvt_table_variant", "versatiles_geometry/src/vector_tile/layer.rs", [
+    (r"pub fn read\(.{0,1500}?\(3, 2\) => \{.{0,200}?add_key\(", 0),
+    (r"pub fn read\(.{0,1500}?\(3, 2\) => \{.{0,200}?\.push\(", 1),
+], "layer read: 0 = tables built with the de-duplicating add(), 1 = entries appended as stored")
+const("zigzag_variant", "versatiles_core/src/io/value_reader.rs", [
+    (r"fn read_svarint.{0,200}?read_varint\(\)\? as i64;.{0,120}?>> 1", 0),
+    (r"fn read_svarint.{0,300}?\(\s*value >> 1\s*\) as i64", 1),
+], "read_svarint: 0 = arithmetic shift on the i64 cast, 1 = logical shift on the u64")
+
 def main():
     out = ["(* GENERATED by tools/scrape_constants.py from /repo — do not edit *)",
            "From Coq Require Import NArith.", "Local Open Scope N_scope.", ""]
